@@ -57,6 +57,10 @@ def make_case(cid, p, rng, e2e):
         # (the shape of the trait header is not a dimension of the rules either: supertraits that the mock types satisfy, a where clause)
         # (`Send`, not `Sync`: mockall's mock objects are not `Sync`)
         sup = rng.choice(["", "", ": ::core::marker::Send", ": 'static", ": ::core::marker::Sized + ::core::marker::Send + 'static", " where Self: ::core::marker::Send"])
+        if t == "trait" and rng.random() < 0.4:
+            # (nor is the delegation: with a delegation-target trait the mock derivations still belong to `Tr` alone)
+            attr = "#[::entrait::%s(%s)] /*@inv*/" % (p["macro"], ", ".join([rng.choice(["TrImpl, delegate_by = ref", "TrImpl, delegate_by = Borrow", "TrImpl, delegate_by = DelegateTr"])] + opts))
+            sup = ": 'static"
         item = (vis + "trait Tr%s { fn f(&self, a: i32) -> i32; }" % sup) if t == "trait" else (vis + "trait Tr%s {}" % sup)
         scope = "self"
     elif t == "fn":
@@ -125,6 +129,11 @@ def attrs_of_trait(items):
                     res.add(("mockall", gated))
                 elif "unimock" in path or "mock" in path:
                     res.add(("unexpected:" + path, gated))
+        elif k["kind"] == "trait":
+            # any other trait the expansion emits (delegation target, selector): never a mock derivation on it
+            for a in k["attrs"]:
+                if "mock" in tok.render(a):
+                    res.add(("unexpected-on-%s:%s" % (k["name"], tok.attr_path(a)), False))
     return res if found else None
 
 
